@@ -28,6 +28,8 @@ func randText(rng *rand.Rand, n int) string {
 }
 
 func genC14(rng *rand.Rand, c *Case) {
+	// a quarter of the cases make every function entry of the server a scheduling point (races on lock-free shared state)
+	c.Cfg["fnyield"] = rng.Intn(4) / 3
 	c.Cfg["policy"] = rng.Intn(3)
 	c.Cfg["seg_s2c"] = rng.Intn(2)
 	c.Cfg["seg_c2s"] = rng.Intn(2)
